@@ -111,6 +111,8 @@ def families(draw, tier):
         spec['where'] = draw(st.sampled_from(['arg', 'ret', 'prop', 'base', 'var', 'inst']))
     if kind == 'size':
         spec['more'] = [draw(G.modules(SMALL)) for _ in range(3)]
+    # what the process parsed before: nothing, or a file that was rejected
+    spec['prelude'] = draw(st.sampled_from(['none', 'none', 'rejected-file']))
     return spec
 
 
@@ -165,6 +167,12 @@ def check(spec):
         sizes = [5, 10, 20, 40] + ([80] if spec['maxd'] >= 32 else [])
     prev = None
     rows = []
+    if spec.get('prelude') == 'rejected-file':
+        bad = make_text(spec, 2)[0] + '\nclass Unfinished {\n'
+        try:
+            c.parse(bad, cap=ABS * len(bad) * 4)
+        except Exception:
+            pass  # a syntax error, as intended
     for d in sizes:
         text, depth = make_text(spec, d)
         bound = ABS * len(text) * (1 + depth)
@@ -187,6 +195,8 @@ def check(spec):
 
 def features(spec):
     f = {'family-' + spec['kind']}
+    if spec.get('prelude') == 'rejected-file':
+        f.add('after-a-rejected-file')
     if 'where' in spec:
         f.add('where-' + spec['where'])
     if spec.get('levels') and any(len(l[0]) >= 5 for l in spec['levels'][:8]):
